@@ -1175,6 +1175,12 @@ func (dht *FullRT) bulkMessageSend(ctx context.Context, keys []peer.ID, fn func(
 	numPeers := len(dht.keyToPeerMap)
 	dht.kMapLk.RUnlock()
 
+	if numPeers == 0 {
+		// Nothing has been crawled (yet): there is nobody to send to, and the
+		// chunk size below would divide by zero.
+		return errors.New("routing table is empty, cannot send bulk messages")
+	}
+
 	chunkSize := (len(sortedKeys) * dht.bucketSize * 2) / numPeers
 	if chunkSize == 0 {
 		chunkSize = 1
